@@ -356,6 +356,33 @@ func init() {
 		r := m.trimSpace(s)
 		return r
 	})
+	// bytes.CutPrefix / CutSuffix / TrimPrefix / TrimSuffix (string domain): sub-slices of the argument
+	bytesAffix := func(name string, suffix, cut bool) {
+		add(name, func(m *Machine, _ *Thread, _ *Frame, a []Value, _ ssa.Value) Value {
+			b, ok := a[0].(ByteSlice)
+			if !ok {
+				panic(m.unsupported("%s of %T", name, a[0]))
+			}
+			s, x := m.needString(m.current(b), name), m.needString(m.termOf(a[1]), name)
+			var has, rest *Term
+			if suffix {
+				has = strSuffixOf(x, s)
+				rest = mk("str.substr", SString, s, IntC(0), intSub(strLenInt(s), strLenInt(x)))
+			} else {
+				has = strPrefixOf(x, s)
+				rest = mk("str.substr", SString, s, strLenInt(x), intSub(strLenInt(s), strLenInt(x)))
+			}
+			out := ByteSlice{T: Ite(has, rest, s), Resliced: true, Buf: b.Buf, AtStart: b.AtStart && suffix, Vol: b.Vol, Epoch: b.Epoch}
+			if cut {
+				return TupleV{out, has}
+			}
+			return out
+		})
+	}
+	bytesAffix("bytes.CutPrefix", false, true)
+	bytesAffix("bytes.CutSuffix", true, true)
+	bytesAffix("bytes.TrimPrefix", false, false)
+	bytesAffix("bytes.TrimSuffix", true, false)
 	add("bytes.TrimSpace", func(m *Machine, _ *Thread, _ *Frame, a []Value, _ ssa.Value) Value {
 		b, ok := a[0].(ByteSlice)
 		if !ok {
@@ -648,6 +675,39 @@ func init() {
 		rs := m.side[m.readerKey(a[0])].(*readerState)
 		rs.epoch++
 		return m.tagVolatile(rs, m.readLine(rs))
+	})
+	// (*bufio.Reader).ReadBytes(delim) / ReadString(delim): everything up to and including the
+	// first delim (a fresh copy); without a delim the rest of the input together with io.EOF
+	readUntil := func(m *Machine, a []Value) (*Term, Value) {
+		rs := m.side[m.readerKey(a[0])].(*readerState)
+		rs.epoch++
+		d, ok := a[1].(*Term)
+		if !ok || !d.IsConst() {
+			panic(m.unsupported("ReadBytes with a symbolic delimiter"))
+		}
+		rest := m.needString(rs.rest, "ReadBytes")
+		if before, after, ok := m.cutAtByte(rest, byte(d.U)); ok {
+			rs.rest = after
+			return m.strConcat(before, StrC(string([]byte{byte(d.U)}))), IfaceV{}
+		}
+		delim := StrC(string([]byte{byte(d.U)}))
+		if m.branch("readbytes.found", mk("str.contains", SBool, rest, delim)) {
+			idx := mk("str.indexof", SInt, rest, delim, IntC(0))
+			n := mk("+", SInt, idx, IntC(1))
+			head := mk("str.substr", SString, rest, IntC(0), n)
+			rs.rest = mk("str.substr", SString, rest, n, intSub(strLenInt(rest), n))
+			return head, IfaceV{}
+		}
+		rs.rest = m.strLit("")
+		return rest, m.errSentinelByName("io.EOF")
+	}
+	add("(*bufio.Reader).ReadBytes", func(m *Machine, _ *Thread, _ *Frame, a []Value, _ ssa.Value) Value {
+		t, err := readUntil(m, a)
+		return TupleV{m.freshBytes(t), err}
+	})
+	add("(*bufio.Reader).ReadString", func(m *Machine, _ *Thread, _ *Frame, a []Value, _ ssa.Value) Value {
+		t, err := readUntil(m, a)
+		return TupleV{t, err}
 	})
 	add("io.ReadAll", func(m *Machine, _ *Thread, _ *Frame, a []Value, _ ssa.Value) Value {
 		m.bumpEpoch(a[0])
